@@ -7,13 +7,19 @@ VERIF = os.path.dirname(os.path.dirname(os.path.abspath(__file__)))
 def sh(cmd, **kw):
     p = subprocess.run(cmd, shell=True, stdout=subprocess.PIPE, stderr=subprocess.STDOUT, text=True, **kw)
     return p.returncode, p.stdout
+import threading
+LOCK = threading.Lock()
+RESULTS = {}
+
+
 def one(sid):
     d = os.path.join(VERIF, "seeded", sid)
     prop = sid.split("-")[0]
     wt = tempfile.mkdtemp(prefix=f"seedrun_{sid}_", dir="/tmp")
     os.rmdir(wt)
     try:
-        rc, out = sh(f"git -C /repo worktree add -q --detach {wt} HEAD")
+        with LOCK:
+            rc, out = sh(f"git -C /repo worktree add -q --detach {wt} HEAD")
         if rc: return sid, "worktree-failed", out
         rc, out = sh(f"git -C {wt} apply {d}/patch.diff")
         if rc:
@@ -24,9 +30,16 @@ def one(sid):
         lines = [l for l in out.splitlines() if l.startswith(("VIOLATION", "  failed", "CHECKER", "UNDECIDED", "OUT-OF", "KNOWN", prop + ":"))]
         return sid, {0: "MISSED", 1: "DETECTED", 2: "UNDECIDED", 3: "CHECKER-FAILURE"}.get(rc, str(rc)), "\n".join(lines[:8])
     finally:
-        sh(f"git -C /repo worktree remove --force {wt}")
+        with LOCK:
+            sh(f"git -C /repo worktree remove --force {wt}")
         shutil.rmtree(wt, ignore_errors=True)
 ids = [a for a in sys.argv[1:] if not a.startswith("--")] or sorted(os.listdir(os.path.join(VERIF, "seeded")))
 with ThreadPoolExecutor(3) as ex:
     for sid, verdict, detail in ex.map(one, ids):
         print(f"=== {sid}: {verdict}\n{detail}", flush=True)
+        mp = os.path.join(VERIF, "seeded", sid, "meta.json")
+        if os.path.exists(mp):
+            m = json.load(open(mp))
+            m["own_property_check_verdict"] = verdict
+            m["failed_obligations"] = sorted({l.split("failed obligation:")[1].strip() for l in detail.splitlines() if "failed obligation:" in l})
+            json.dump(m, open(mp, "w"), indent=1)
